@@ -277,6 +277,29 @@ impl Judge<'_> {
                 replay(),
             );
         }
+        // gas already used by forced (L1) transactions before the source is asked, and whether the
+        // block is sensitive to a stale gas budget (a planned tx fits the full limit but not what is left)
+        let plan_ids: std::collections::BTreeSet<_> = plan.txs.iter().map(|p| p.id).collect();
+        let n_l1 = produced.tx_status[..n - 1].iter().take_while(|s| !plan_ids.contains(&s.id)).count();
+        let l1_gas: u64 = produced.tx_status[..n_l1].iter().map(|s| *s.result.total_gas()).sum();
+        if l1_gas.saturating_mul(100) >= gas_limit.saturating_mul(40) {
+            c.report.count("c03.forced_txs_used_40pct_of_block_gas");
+            let left = gas_limit.saturating_sub(l1_gas);
+            let sensitive = plan.txs.iter().any(|p| {
+                let g = chaingen::fuel_core_types::blockchain::transaction::TransactionExt::max_gas(&p.tx, params).unwrap_or(0);
+                g > left && g <= gas_limit && p.script.as_ref().map(|s| s.steps.iter().any(|st| st.name() == "burn_loop")).unwrap_or(false)
+            });
+            if sensitive {
+                c.report.count(&format!("c03.gas_burner_fits_full_limit_but_not_remaining.{}", by(source.respects_gas())));
+            }
+        }
+        if matches!(source, SourceKind::Stutter) && produced.source_calls.iter().filter(|sc| sc.returned > 0).count() >= 2 {
+            c.report.count("c03.stutter_blocks_with_second_batch");
+            if gas_sum.saturating_mul(100) >= gas_limit.saturating_mul(60) {
+                c.report.count("c03.stutter_blocks_with_second_batch_and_60pct_gas");
+            }
+        }
+        c.report.add("c03.gas_burner_txs_out_of_gas", produced.tx_status.iter().filter(|s| matches!(&s.result, chaingen::fuel_core_types::services::executor::TransactionExecutionResult::Failed { receipts, result, .. } if chaingen::fuel_core_types::services::executor::TransactionExecutionResult::reason(receipts, result).starts_with("OutOfGas"))).count() as u64);
         // which limits were binding (evidence)
         let planned_gas: u64 = plan
             .txs
@@ -445,11 +468,19 @@ pub fn run(args: &Args, report: &Report) {
             // make the size limit bind often
             cfg.block_size_limit = *pick(rng, &[2_500u64, 4_000]);
         }
+        let burner_session = case.session % 2 == 0;
+        if burner_session {
+            // small block gas limit of which forced (relayed) gas burners take a large share
+            cfg.block_gas_limit = *pick(rng, &[1_200_000u64, 1_600_000]);
+            cfg.max_gas_per_tx = *pick(rng, &[700_000u64, 900_000]);
+        }
         let mut sess = ChainSession::new(rng, cfg);
         let mut opt = GenOptions::default();
         opt.txs = 6..=12;
         opt.upgrades = false;
+        opt.forced_burners = burner_session;
         for _ in 0..blocks {
+            opt.burners_permille = if burner_session && chance(rng, 60) { 600 } else { 120 };
             let plan = sess.gen_block_plan(rng, &opt);
             // produce the same plan with several sources; commit the first
             let kinds = [
@@ -509,6 +540,9 @@ pub fn run(args: &Args, report: &Report) {
         report.require("c03.gas_limit_binding.respecting", args.by_tier(200, 2000));
         report.require("c03.size_limit_binding.ignoring", args.by_tier(290, 2900));
         report.require("c03.size_limit_binding.respecting", args.by_tier(500, 5000));
+        report.require("c03.forced_txs_used_40pct_of_block_gas", args.by_tier(150, 1_500));
+        report.require("c03.gas_burner_fits_full_limit_but_not_remaining.respecting", args.by_tier(40, 400));
+        report.require("c03.stutter_blocks_with_second_batch_and_60pct_gas", args.by_tier(15, 150));
         report.require("c03.count_limit_binding.ignoring", args.by_tier(3, 6));
         report.require("c03.mint_nonzero", args.by_tier(630, 6300));
         report.require("c03.mint_zero", args.by_tier(410, 4100));
